@@ -202,6 +202,112 @@ def M_res_into_iter(it, ctx, args, st):
         yield s2, It('list', (pl.fields[0],) if v.decl.variants[i][0] == hit else ())
 
 
+def M_from_str_trait(it, ctx, args, st):
+    """<T as FromStr>::from_str(s)  ==  s.parse::<T>()"""
+    ctx2 = type('C', (), {'gargs': [ctx.self_ty], 'fr': ctx.fr, 'callee': ctx.callee})()
+    yield from M_str_parse(it, ctx2, args, st)
+
+
+def M_str_starts_with_str(it, ctx, args, st):
+    s, pre = sval(st, args[0]), sval(st, args[1])
+    py = bstr_py(pre)
+    if py is None:
+        raise Unsupported('starts_with with a symbolic prefix')
+    n = len(py)
+    yield st, z3.And(z3.UGE(s.len, n), *[(s.bytes[i] == py[i]) if i < len(s.bytes) else z3.BoolVal(False) for i in range(n)])
+
+
+def M_str_ends_with_str(it, ctx, args, st):
+    s, suf = sval(st, args[0]), sval(st, args[1])
+    py = bstr_py(suf)
+    if py is None:
+        raise Unsupported('ends_with with a symbolic suffix')
+    n = len(py)
+    yield st, z3.And(z3.UGE(s.len, n), *[bstr_byte(s, s.len - n + i) == py[i] for i in range(n)])
+
+
+def M_for_each(it, ctx, args, st):
+    itv = itval(st, args[0])
+
+    def go(st, itv):
+        for s2, i2, item in it_next(it, st, itv, ctx.fr):
+            if item is None:
+                yield s2, UNIT
+                continue
+            if is_abnormal(item):
+                yield s2, item
+                continue
+            for s3, r in it.call_closure(args[1], [item], s2, ctx.fr):
+                if is_abnormal(r):
+                    yield s3, r
+                else:
+                    yield from go(s3, i2)
+    yield from go(st, itv)
+
+
+def M_rposition(it, ctx, args, st):
+    """Iterator::rposition on an exact-size double-ended iterator over a bounded byte string / slice: the last index whose item
+    satisfies the predicate (searched from the back)"""
+    itv = itval(st, args[0])
+    kind, src = itv.fields[0], itv.fields[1]
+    if kind not in ('ptrseq', 'bytes') or itv.fields[3] != 0:
+        raise Unsupported('rposition on iterator kind ' + kind)
+    seq = st.deref(src) if kind == 'ptrseq' else src
+    if not isinstance(seq, BStr):
+        raise Unsupported('rposition on a non-byte sequence')
+    K = len(seq.bytes)
+
+    def go(st, k):
+        # k: index from the back still to examine (K-1 .. 0); positions >= len do not exist
+        if k < 0:
+            yield st, it.none
+            return
+        for s2, exists in fork_bool(it, st, z3.UGT(seq.len, bv(k))):
+            if not exists:
+                yield from go(s2, k - 1)
+                continue
+            item = Ptr(src.addr, src.proj + (('i', k),)) if kind == 'ptrseq' else seq.bytes[k]
+            for s3, r in it.call_closure(args[1], [item], s2, ctx.fr):
+                if is_abnormal(r):
+                    yield s3, r
+                    continue
+                for s4, hit in fork_bool(it, s3, r):
+                    if hit:
+                        yield s4, it.some(bv(k))
+                    else:
+                        yield from go(s4, k - 1)
+    yield from go(st, K - 1)
+
+
+def M_ordering_eq(it, ctx, args, st):
+    a, b = st.deref_all(args[0]) if isinstance(args[0], Ptr) else args[0], st.deref_all(args[1]) if isinstance(args[1], Ptr) else args[1]
+    e = a.discr == b.discr
+    yield st, (z3.Not(e) if ctx.callee.method == 'ne' else e)
+
+
+def M_string_with_capacity(it, ctx, args, st):
+    yield st, bstr(b'')
+
+
+def M_string_push_str(it, ctx, args, st):
+    p = args[0]
+    while isinstance(st.deref(p), Ptr):
+        p = st.deref(p)
+    st.write(p, bstr_concat(st.deref(p), sval(st, args[1])))
+    yield st, UNIT
+
+
+def M_btreeset_contains_str(it, ctx, args, st):
+    s = st.deref_all(args[0])
+    x = sval(st, args[1])
+    items = s.items if isinstance(s, Seq) else s.fields[0]
+    conds = []
+    for e in items:
+        e = st.deref_all(e) if isinstance(e, Ptr) else e
+        conds.append(bstr_eq(e, x))
+    yield st, z3.Or(*conds) if conds else z3.BoolVal(False)
+
+
 def M_opt_is_some(it, ctx, args, st):
     yield st, deref(st, args[0]).discr == 1
 
@@ -1661,6 +1767,12 @@ MODELS = [
     (P + r'ops::RangeInclusive::<.*>::new', M_range_inclusive_new), (P + r'ops::(?:range::)?Range(?:Inclusive)?::<.*>::contains::<.*>', M_range_contains),
     (r'<u8 as ' + P + r'convert::TryFrom<char>>::try_from', M_u8_try_from_char),
     (r'<' + P + r'(?:result::Result|option::Option)<.*> as ' + P + r'iter::IntoIterator>::into_iter', M_res_into_iter, lambda it, ctx, args, st: isinstance(args[0], Enum)),
+    (r'<(?:[iu](?:8|16|32|64|128|size)|f64|f32|bool) as ' + P + r'str::FromStr>::from_str', M_from_str_trait),
+    (P + r'str::<impl str>::starts_with::<&str>', M_str_starts_with_str), (P + r'str::<impl str>::ends_with::<&str>', M_str_ends_with_str),
+    (ITER + r'for_each::<.*>', M_for_each), (ITER + r'rposition::<.*>', M_rposition),
+    (r'<' + P + r'cmp::Ordering as ' + P + r'cmp::PartialEq>::(eq|ne)', M_ordering_eq),
+    (P + r'string::String::with_capacity|' + P + r'string::String::new', M_string_with_capacity), (P + r'string::String::push_str', M_string_push_str),
+    (P + r'collections::BTreeSet::<' + P + r'string::String>::contains::<str>', M_btreeset_contains_str),
     (OPT + r'is_some', M_opt_is_some), (OPT + r'is_none', M_opt_is_none), (OPT + r'as_ref', M_opt_as_ref),
     (OPT + r'(cloned|copied)', M_opt_cloned), (OPT + r'take', M_opt_take), (OPT + r'transpose', M_opt_transpose),
     (RES + r'map_err::<.*>', M_res_map_err), (RES + r'map::<.*>', M_res_map), (RES + r'and_then::<.*>', M_res_and_then),
